@@ -116,7 +116,10 @@ THS ==
   /\ open' = open \cup {Line.hook}
   \* A call reads its variables asynchronously, some time between its trigger (HStart line) and this line.
   \* It is judged only when both lie on the same side of the run window [SOSOR, end of after_STOP_ACTIVITY].
-  /\ LET inside == inWin /\ Line.hook \in winStarted
+  \* (a call started in the last moment of the window and awaited only later - or never - reads them while the core goes on
+  \*  to the end of that moment, where the run number is dropped: it is not judged as "inside")
+  /\ LET lastMoment == Line.hook \in HookIds /\ HK(Line.hook).tm = "after_STOP_ACTIVITY" /\ HK(Line.hook).am # "after_STOP_ACTIVITY"
+         inside == inWin /\ Line.hook \in winStarted /\ ~lastMoment
          outside == ~inWin /\ Line.hook \in outStarted
          SameRun == Line.sosor # 0 /\ (seen.sosor = 0 \/ seen.sosor = Line.sosor)
      IN
